@@ -174,10 +174,11 @@ impl DoraAsm {
         x64.push_str("\n// ---- generated by vasm64 (C07) ----\n");
         x64.push_str("fn c07r(i: Int64): Register { Register(i.to_uint8()) }\n");
         x64.push_str("fn c07x(i: Int64): FloatRegister { FloatRegister(i.to_uint8()) }\n");
-        x64.push_str("fn c07m(a: AssemblerX64, out: std::StringBuffer, id: Int64) { out.append(\"C07M ${id} ${a.size()}\\n\"); }\n");
+        // markers are printed immediately: if an assert inside the assembler aborts the process, the last marker names the culprit
+        x64.push_str("fn c07m(a: AssemblerX64, out: std::StringBuffer, id: Int64) { println(\"C07M ${id} ${a.size()}\"); }\n");
         x64.push_str("fn c07d(a: AssemblerX64, out: std::StringBuffer, fid: Int64) {\n    let bytes = a.finalize();\n    out.append(\"C07B ${fid}\");\n    for b in bytes { out.append(\" ${b.to_string_hex()}\"); }\n    out.append(\"\\nC07E ${fid}\");\n    println(out.to_string());\n}\n");
         for (fid, (avx, ids)) in groups.iter().enumerate() {
-            x64.push_str(&format!("@Test\nfn c07_f{fid}() {{\n    let a = AssemblerX64::new({avx});\n    let out = std::StringBuffer::new();\n    out.append(\"\\n\");\n"));
+            x64.push_str(&format!("@Test\nfn c07_f{fid}() {{\n    let a = AssemblerX64::new({avx});\n    let out = std::StringBuffer::new();\n    println(\"\");\n"));
             for &k in ids {
                 let call = self.call_text(&insts[k]).ok_or_else(|| format!("instance {} has no Dora counterpart", self.enc.describe(&insts[k])))?;
                 x64.push_str(&format!("    {call} c07m(a, out, {k});\n"));
@@ -231,9 +232,11 @@ impl DoraAsm {
                 // function did not finish: an assertion inside the assembler fired (test failure)
                 if trouble.is_none() {
                     let err = String::from_utf8_lossy(&run.stderr);
-                    let hint: Vec<&str> = out.lines().chain(err.lines()).filter(|l| l.contains("c07_f") && (l.contains("FAIL") || l.contains("fail")) || l.contains("assert") || l.contains("panic")).take(3).collect();
-                    trouble = Some(format!("generated test function c07_f{fid} did not complete (exit status {:?}): {}", run.status.code(), hint.join(" | ")));
+                    let hint: Vec<&str> = err.lines().chain(out.lines().filter(|l| l.contains("assert") || l.contains("panic"))).filter(|l| !l.trim().is_empty()).take(6).collect();
+                    let culprit = ids.iter().find(|k| !marks.contains_key(k)).map(|&k| self.enc.describe(&insts[k])).unwrap_or_default();
+                    trouble = Some(format!("the Dora assembler aborted the generated test c07_f{fid} (exit status {:?}) at {culprit}: {}", run.status.code(), hint.join(" | ")));
                 }
+                // instances before the abort were emitted; without the final dump their bytes are unknown
                 continue;
             };
             let mut prev = 0usize;
